@@ -21,15 +21,15 @@ import (
 
 // scanEnding says how the scan is ended (C14); Kind "exhaust" is C06.
 type scanEnding struct {
-	Kind       string `json:"kind"`              // exhaust | close | error | cancel | cancelmid
+	Kind string `json:"kind"` // exhaust | close | error | cancel | cancelmid
 	// MidReq (cancelmid): after After Next calls, the context is cancelled while the MidReq-th request
 	// of the following Next call is being answered (the response still arrives)
-	MidReq int `json:"mid_req,omitempty"`
-	After      int    `json:"after,omitempty"`   // Next calls before Close / cancel
-	FailOn     int    `json:"fail_on,omitempty"` // 1-based request number that fails
-	CloseTwice bool   `json:"close_twice,omitempty"`
-	RenewMS    int    `json:"renew_ms,omitempty"` // renewal interval, 0 = off
-	SleepMS    int    `json:"sleep_ms,omitempty"` // consumer pause between Next calls
+	MidReq     int  `json:"mid_req,omitempty"`
+	After      int  `json:"after,omitempty"`   // Next calls before Close / cancel
+	FailOn     int  `json:"fail_on,omitempty"` // 1-based request number that fails
+	CloseTwice bool `json:"close_twice,omitempty"`
+	RenewMS    int  `json:"renew_ms,omitempty"` // renewal interval, 0 = off
+	SleepMS    int  `json:"sleep_ms,omitempty"` // consumer pause between Next calls
 	// IdleAfterEnd: after Close / cancel the consumer does not touch the scanner for 3 renewal intervals
 	IdleAfterEnd bool `json:"idle_after_end,omitempty"`
 }
